@@ -114,6 +114,11 @@ class _Rewriter(ast.NodeTransformer):
         node.id = _strip_suffix(node.id)
         return node
 
+    def visit_ExceptHandler(self, node: ast.ExceptHandler) -> ast.AST:
+        if node.name:
+            node.name = _strip_suffix(node.name)
+        return self.generic_visit(node)
+
     # --- annotations / asserts
     def visit_AnnAssign(self, node: ast.AnnAssign) -> ast.AST:
         if node.value is None:
@@ -280,6 +285,97 @@ class _Alpha(ast.NodeTransformer):
         return node
 
 
+class _Versioner(ast.NodeTransformer):
+    """Alpha-normalisation by definition: every binding occurrence of a local starts a new canonical name
+    and a use refers to the latest binding in evaluation order.  Two bodies that differ only in which
+    locals they reuse (`err` in both branches here, `err` / `err2` there) get the same text."""
+
+    def __init__(self, keep: set, params: List[str]) -> None:
+        self.keep = keep
+        self.cur: Dict[str, str] = {}
+        self.count = 0
+        for p in params:
+            self.cur[p] = self._new()
+
+    def _new(self) -> str:
+        n = f"v{self.count}"
+        self.count += 1
+        return n
+
+    def visit_Name(self, node: ast.Name) -> ast.AST:
+        if node.id in self.keep:
+            return node
+        if isinstance(node.ctx, (ast.Store, ast.Del)):
+            self.cur[node.id] = self._new()
+            node.id = self.cur[node.id]
+        elif node.id in self.cur:
+            node.id = self.cur[node.id]
+        return node
+
+    def visit_Assign(self, node: ast.Assign) -> ast.AST:
+        node.value = self.visit(node.value)
+        node.targets = [self.visit(t) for t in node.targets]
+        return node
+
+    def visit_AugAssign(self, node: ast.AugAssign) -> ast.AST:
+        node.value = self.visit(node.value)
+        if isinstance(node.target, ast.Name) and node.target.id in self.cur:
+            node.target.id = self.cur[node.target.id]  # updates the current binding in place
+        else:
+            node.target = self.visit(node.target)
+        return node
+
+    def visit_AnnAssign(self, node: ast.AnnAssign) -> ast.AST:
+        if node.value is not None:
+            node.value = self.visit(node.value)
+        node.target = self.visit(node.target)
+        return node
+
+    def visit_For(self, node: ast.For) -> ast.AST:
+        node.iter = self.visit(node.iter)
+        node.target = self.visit(node.target)
+        node.body = [self.visit(s) for s in node.body]
+        node.orelse = [self.visit(s) for s in node.orelse]
+        return node
+
+    def _comp(self, node):  # type: ignore[no-untyped-def]
+        for g in node.generators:
+            g.iter = self.visit(g.iter)
+            g.target = self.visit(g.target)
+            g.ifs = [self.visit(c) for c in g.ifs]
+        if isinstance(node, ast.DictComp):
+            node.key = self.visit(node.key)
+            node.value = self.visit(node.value)
+        else:
+            node.elt = self.visit(node.elt)
+        return node
+
+    visit_ListComp = _comp
+    visit_SetComp = _comp
+    visit_GeneratorExp = _comp
+    visit_DictComp = _comp
+
+    def visit_ExceptHandler(self, node: ast.ExceptHandler) -> ast.AST:
+        if node.type is not None:
+            node.type = self.visit(node.type)
+        if node.name:
+            self.cur[node.name] = self._new()
+            node.name = self.cur[node.name]
+        node.body = [self.visit(s) for s in node.body]
+        return node
+
+    def visit_arg(self, node: ast.arg) -> ast.AST:
+        if node.arg not in self.keep:
+            self.cur[node.arg] = self._new()
+            node.arg = self.cur[node.arg]
+        return node
+
+    def visit_FunctionDef(self, node: ast.FunctionDef) -> ast.AST:
+        self.cur[node.name] = self._new()
+        node.name = self.cur[node.name]
+        return self.generic_visit(node)
+
+
 def _binding_order(body: List[ast.stmt], params: List[str]) -> List[str]:
     """Locals in the order of their first binding occurrence in source order."""
     order: List[str] = list(params)
@@ -350,11 +446,8 @@ def normalise(fn_node: ast.AST, alpha: bool = True) -> NormResult:
         new_body = shell.body or [ast.Pass()]
     if alpha:
         keep = {"self", "cls"}
-        order = _binding_order(new_body, [p for p in params if p not in keep])
-        a = _Alpha(keep)
-        for n in order:
-            a._name(n)
-        new_body = [a.visit(s) for s in new_body]
+        ver = _Versioner(keep, [p for p in params if p not in keep])
+        new_body = [ver.visit(s) for s in new_body]
     for s in new_body:
         ast.fix_missing_locations(s)
     res.body = new_body
